@@ -134,6 +134,40 @@ def build(d):
     return m
 
 
+def edit_in_place(model):
+    """Edits of a model that has been saved before, through attribute setters and in-place container edits that keep
+    every existing object (solver objective, rule, notes and annotation dictionaries) alive - whatever a writer has
+    remembered about the model at the first save is now stale.  Works on any model with at least two reactions."""
+    rs = list(model.reactions)
+    r_first, r_last = rs[0], rs[-1]
+    # objective edited in place (same solver objective object)
+    for r in rs:
+        if r.objective_coefficient != 0:
+            r.objective_coefficient = 0
+            break
+    r_first.objective_coefficient = 2.5
+    r_last.bounds = (-7, 7.5)
+    r_first.name = ((r_first.name or "") + " edited").strip()
+    r_first.subsystem = "edited subsystem"
+    r_first.annotation["edited"] = "yes"
+    r_first.notes["edited note"] = "text"
+    m0 = list(model.metabolites)[-1]
+    if m0 not in r_first.metabolites:
+        r_first.add_metabolites({m0: 3})
+    else:
+        r_first.add_metabolites({m0: 1})
+    m0.formula, m0.charge = "C2H6O", -1
+    m0.name = ((m0.name or "") + " edited").strip()
+    m0.annotation["edited"] = ["a", "b"]
+    if model.genes:
+        g0 = list(model.genes)[0]
+        g0.name = "edited gene"
+        others = [g.id for g in model.genes if g.id != g0.id][:1]
+        r_last.gene_reaction_rule = " or ".join([g0.id] + others)
+    model.compartments = dict(model.compartments, **{m0.compartment: "edited compartment"}) if m0.compartment else model.compartments
+    return model
+
+
 def content_view(model, with_groups=True):
     """Comparable content of a model for round-trip checks (property C10/C11 attribute lists)."""
     from . import observe
